@@ -1,4 +1,80 @@
-; spec for the loader model
-(declare-fun encodes (I.bpf.Instruction bpf.RawInstruction) Bool)
+; ---------------------------------------------------------------------------
+; Trusted spec library, part 7: the loader model, and the kernel's view of the program it is handed.
+; ---------------------------------------------------------------------------
 (define-fun allThreads () (Array Int Bool) ((as const (Array Int Bool)) true))
 (define-fun noThreads () (Array Int Bool) ((as const (Array Int Bool)) false))
+
+; ---- classic BPF as the kernel runs it on the array it is handed: struct sock_filter {code, jt, jf, k}
+; (linux/filter.h; bpf_check_classic / ___bpf_prog_run for the opcodes seccomp permits that the compiler can emit).
+; Opcode values from linux/bpf_common.h (compared with the vendored header by ground obligations):
+;   BPF_LD|BPF_W|BPF_ABS = 0x20 = 32      BPF_JMP|BPF_JA = 0x05 = 5        BPF_RET|BPF_K = 0x06 = 6
+;   BPF_JMP|BPF_JEQ|BPF_K = 0x15 = 21     BPF_JMP|BPF_JGT|BPF_K = 0x25 = 37
+;   BPF_JMP|BPF_JGE|BPF_K = 0x35 = 53     BPF_JMP|BPF_JSET|BPF_K = 0x45 = 69
+; Outcome as for S-std: Ret v, Fall A (control reaches exactly the end), Stuck (anything else).
+(define-fun sfAt ((p Slice<syscall.SockFilter>) (pc Int)) syscall.SockFilter (select (Slice<syscall.SockFilter>.arr p) pc))
+(define-fun sfLen ((p Slice<syscall.SockFilter>)) Int (Slice<syscall.SockFilter>.len p))
+(define-fun sfTest ((code Int) (A (_ BitVec 32)) (k (_ BitVec 32))) Bool
+  (ite (= code 21) (= A k)
+  (ite (= code 37) (bvugt A k)
+  (ite (= code 53) (bvuge A k)
+       (not (= (bvand A k) #x00000000))))))
+(define-fun-rec runSF ((p Slice<syscall.SockFilter>) (pc Int) (A (_ BitVec 32))) Outcome
+  (ite (or (< pc 0) (> pc (sfLen p))) Stuck
+  (ite (= pc (sfLen p)) (Fall A)
+  (let ((code (syscall.SockFilter.Code (sfAt p pc))) (k (syscall.SockFilter.K (sfAt p pc))))
+  (ite (= code 6) (Ret k)
+  (ite (= code 32) (runSF p (+ pc 1) (word ev k))
+  (ite (= code 5) (runSF p (+ pc 1 (w2i32 k)) A)
+  (ite (or (= code 21) (= code 37) (= code 53) (= code 69))
+       (runSF p (+ pc 1 (ite (sfTest code A k) (syscall.SockFilter.Jt (sfAt p pc)) (syscall.SockFilter.Jf (sfAt p pc)))) A)
+       Stuck))))))))
+
+; ---- the raw form x/net's encoder must produce (intermediate relation between an instruction and its raw form; what
+; matters is the theorem sfRunInd: a program in this relation to its raw form runs, under the kernel semantics above,
+; exactly like the instruction list under S-std) ----
+; conditional jump opcode and branch order per JumpTest (the four negated tests use the opposite test, branches swapped)
+(define-fun rawJumpOp ((cond Int)) Int
+  (ite (or (= cond 0) (= cond 1)) 21 (ite (or (= cond 2) (= cond 5)) 37 (ite (or (= cond 3) (= cond 4)) 53 69))))
+(define-fun rawFlip ((cond Int)) Bool (or (= cond 1) (= cond 3) (= cond 5) (= cond 7)))
+(define-fun rawLoadOp ((size Int)) Int (ite (= size 4) 32 (ite (= size 2) 40 48)))
+; the instruction can be encoded (x/net returns no error)
+(define-fun encodable ((i I.bpf.Instruction)) Bool
+  (or ((_ is I.bpf.Instruction.box.bpf.RetConstant) i) ((_ is I.bpf.Instruction.box.bpf.Jump) i)
+      (and ((_ is I.bpf.Instruction.box.bpf.LoadAbsolute) i)
+           (let ((s (bpf.LoadAbsolute.Size (I.bpf.Instruction.unbox.bpf.LoadAbsolute i)))) (or (= s 1) (= s 2) (= s 4))))
+      (and ((_ is I.bpf.Instruction.box.bpf.JumpIf) i)
+           (<= 0 (bpf.JumpIf.Cond (I.bpf.Instruction.unbox.bpf.JumpIf i))) (<= (bpf.JumpIf.Cond (I.bpf.Instruction.unbox.bpf.JumpIf i)) 7))))
+(define-fun encodes ((i I.bpf.Instruction) (r bpf.RawInstruction)) Bool
+  (ite ((_ is I.bpf.Instruction.box.bpf.RetConstant) i)
+       (= r (mk.bpf.RawInstruction 6 0 0 (bpf.RetConstant.Val (I.bpf.Instruction.unbox.bpf.RetConstant i))))
+  (ite ((_ is I.bpf.Instruction.box.bpf.Jump) i)
+       (= r (mk.bpf.RawInstruction 5 0 0 (bpf.Jump.Skip (I.bpf.Instruction.unbox.bpf.Jump i))))
+  (ite ((_ is I.bpf.Instruction.box.bpf.LoadAbsolute) i)
+       (= r (mk.bpf.RawInstruction (rawLoadOp (bpf.LoadAbsolute.Size (I.bpf.Instruction.unbox.bpf.LoadAbsolute i))) 0 0
+                                   (bpf.LoadAbsolute.Off (I.bpf.Instruction.unbox.bpf.LoadAbsolute i))))
+  (ite ((_ is I.bpf.Instruction.box.bpf.JumpIf) i)
+       (let ((j (I.bpf.Instruction.unbox.bpf.JumpIf i)))
+         (= r (mk.bpf.RawInstruction (rawJumpOp (bpf.JumpIf.Cond j))
+                 (ite (rawFlip (bpf.JumpIf.Cond j)) (bpf.JumpIf.SkipFalse j) (bpf.JumpIf.SkipTrue j))
+                 (ite (rawFlip (bpf.JumpIf.Cond j)) (bpf.JumpIf.SkipTrue j) (bpf.JumpIf.SkipFalse j))
+                 (bpf.JumpIf.Val j))))
+       false)))))
+; the instruction kinds (and operand ranges) for which S-std and the kernel semantics of the raw form agree: word loads,
+; the eight jump tests with 8-bit skips, ja, ret
+(define-fun stdInsn ((i I.bpf.Instruction)) Bool
+  (or ((_ is I.bpf.Instruction.box.bpf.RetConstant) i) ((_ is I.bpf.Instruction.box.bpf.Jump) i)
+      (and ((_ is I.bpf.Instruction.box.bpf.LoadAbsolute) i) (= (bpf.LoadAbsolute.Size (I.bpf.Instruction.unbox.bpf.LoadAbsolute i)) 4))
+      (and ((_ is I.bpf.Instruction.box.bpf.JumpIf) i)
+           (let ((j (I.bpf.Instruction.unbox.bpf.JumpIf i)))
+             (and (<= 0 (bpf.JumpIf.Cond j)) (<= (bpf.JumpIf.Cond j) 7) (<= 0 (bpf.JumpIf.SkipTrue j)) (<= 0 (bpf.JumpIf.SkipFalse j)))))))
+; sock_filter element = raw instruction, field by field
+(define-fun sameFields ((s syscall.SockFilter) (r bpf.RawInstruction)) Bool
+  (and (= (syscall.SockFilter.Code s) (bpf.RawInstruction.Op r)) (= (syscall.SockFilter.Jt s) (bpf.RawInstruction.Jt r))
+       (= (syscall.SockFilter.Jf s) (bpf.RawInstruction.Jf r)) (= (syscall.SockFilter.K s) (bpf.RawInstruction.K r))))
+; the array handed to the kernel is, element by element, the raw form of the instruction list
+(define-fun handedOver ((insts Slice<I.bpf.Instruction>) (raw Slice<bpf.RawInstruction>) (sf Slice<syscall.SockFilter>)) Bool
+  (and (= (sfLen sf) (plen insts)) (= (Slice<bpf.RawInstruction>.len raw) (plen insts))
+       (forall ((i Int)) (! (=> (and (<= 0 i) (< i (plen insts)))
+            (and (stdInsn (insnAt insts i)) (encodes (insnAt insts i) (select (Slice<bpf.RawInstruction>.arr raw) i))
+                 (sameFields (sfAt sf i) (select (Slice<bpf.RawInstruction>.arr raw) i))))
+            :pattern ((insnAt insts i)) :pattern ((sfAt sf i))))))
